@@ -453,6 +453,9 @@ fn req_body(c: usize) -> Value {
     json!({ "c": 100 + c })
 }
 fn caller_of(f: &RawFrame) -> Option<usize> {
+    if let Some(q) = std::str::from_utf8(&f.query).ok().and_then(|q| q.strip_prefix("/v/")) {
+        return q.split('/').next()?.parse::<usize>().ok()?.checked_sub(100);
+    }
     let v: Value = serde_json::from_slice(&f.body).ok()?;
     Some((v.get("c")?.as_u64()? as usize).checked_sub(100)?)
 }
@@ -495,6 +498,133 @@ fn req_wire_len(kind: usize) -> usize {
     if kind == 2 { n + 6 } else { n }
 }
 
+
+// ---------------------------------------------------------------------------------------------
+// entry-point variants: every public call entry point of the three clients
+// ---------------------------------------------------------------------------------------------
+/// 0 call_json, 2 call_typed_json, 4 call_typed_beve, 6 call_typed_slice, 8 call_typed_slice_aligned,
+/// 10 call_message, 12 call_with_formats, 14 registry_read, 16 registry_read_typed, 18 registry_write_json,
+/// 19 registry_call_json; odd numbers below 18 are the `_with_timeout` twins.
+const NVARIANTS: usize = 20;
+fn variant_name(v: usize) -> &'static str {
+    ["call_json", "call_json_with_timeout", "call_typed_json", "call_typed_json_with_timeout", "call_typed_beve", "call_typed_beve_with_timeout",
+     "call_typed_slice", "call_typed_slice_with_timeout", "call_typed_slice_aligned", "call_typed_slice_aligned_with_timeout", "call_message",
+     "call_message_with_timeout", "call_with_formats", "call_with_formats_and_timeout", "registry_read", "registry_read_with_timeout",
+     "registry_read_typed", "registry_read_typed_with_timeout", "registry_write_json", "registry_call_json"][v % NVARIANTS]
+}
+/// The WebSocket client has no typed-slice calls.
+fn variant_for(kind: usize, v: usize) -> usize {
+    let v = v % NVARIANTS;
+    if kind == 2 && (6..10).contains(&v) { v - 6 } else { v }
+}
+fn vpath(c: usize, v: usize) -> String {
+    format!("/v/{}/{:02}", 100 + c, v)
+}
+fn variant_of(f: &RawFrame) -> usize {
+    std::str::from_utf8(&f.query).ok().and_then(|q| q.strip_prefix("/v/")).and_then(|q| q.split('/').nth(1)).and_then(|x| x.parse().ok()).unwrap_or(0)
+}
+fn slice_to_value(v: Vec<i64>) -> Result<Value, RepeError> {
+    Ok(json!({ "tag": v.first().copied().unwrap_or(-3), "c": v.get(1).copied().unwrap_or(-3) }))
+}
+fn msg_to_value(m: Message) -> Result<Value, RepeError> {
+    serde_json::from_slice::<Value>(&m.body).map_err(RepeError::from)
+}
+/// Response frame whose body the entry point `v` can decode.
+fn response_v(id: u64, notify: bool, tag: i64, c: i64, v: usize) -> Vec<u8> {
+    let q = b"/t";
+    match v % NVARIANTS {
+        4 | 5 => RawFrame::request(id, notify, 1, q, 1, &beve::to_vec(&json!({ "tag": tag, "c": c })).unwrap()).to_vec(),
+        6..=9 => {
+            let mut m = Message::builder().body_typed_slice(&[tag, c]).build();
+            let body = std::mem::take(&mut m.body);
+            RawFrame::request(id, notify, 1, q, m.header.body_format, &body).to_vec()
+        }
+        _ => response(id, notify, tag, c),
+    }
+}
+
+macro_rules! call_variant {
+    ($cl:expr, $v:expr, $c:expr, $t:expr, slices: $sl:tt, [$($aw:tt)*]) => {{
+        let path = vpath($c, $v);
+        let path = path.as_str();
+        let body = req_body($c);
+        let raw = serde_json::to_vec(&body).unwrap();
+        let t: Duration = $t;
+        let r: Result<Value, RepeError> = match $v {
+            0 => $cl.call_json(path, &body)$($aw)*,
+            1 => $cl.call_json_with_timeout(path, &body, t)$($aw)*,
+            2 => $cl.call_typed_json::<&str, Value, Value>(path, &body)$($aw)*,
+            3 => $cl.call_typed_json_with_timeout::<&str, Value, Value>(path, &body, t)$($aw)*,
+            4 => $cl.call_typed_beve::<&str, Value, Value>(path, &body)$($aw)*,
+            5 => $cl.call_typed_beve_with_timeout::<&str, Value, Value>(path, &body, t)$($aw)*,
+            6..=9 => call_variant!(@slice $sl, $cl, $v, path, $c, t, [$($aw)*]),
+            10 => $cl.call_message(path)$($aw)*.and_then(msg_to_value),
+            11 => $cl.call_message_with_timeout(path, t)$($aw)*.and_then(msg_to_value),
+            12 => $cl.call_with_formats(path, 1, Some(&raw), 2)$($aw)*.and_then(msg_to_value),
+            13 => $cl.call_with_formats_and_timeout(path, 1, Some(&raw), 2, t)$($aw)*.and_then(msg_to_value),
+            14 => $cl.registry_read(path)$($aw)*,
+            15 => $cl.registry_read_with_timeout(path, t)$($aw)*,
+            16 => $cl.registry_read_typed::<&str, Value>(path)$($aw)*,
+            17 => $cl.registry_read_typed_with_timeout::<&str, Value>(path, t)$($aw)*,
+            18 => $cl.registry_write_json(path, &body)$($aw)*,
+            _ => $cl.registry_call_json(path, &body)$($aw)*,
+        };
+        r
+    }};
+    (@slice yes, $cl:expr, $v:expr, $path:expr, $c:expr, $t:expr, [$($aw:tt)*]) => {{
+        let b = [100 + $c as i64];
+        match $v {
+            6 => $cl.call_typed_slice::<&str, i64, i64>($path, &b)$($aw)*.and_then(slice_to_value),
+            7 => $cl.call_typed_slice_with_timeout::<&str, i64, i64>($path, &b, $t)$($aw)*.and_then(slice_to_value),
+            8 => $cl.call_typed_slice_aligned::<&str, i64, i64>($path, &b)$($aw)*.and_then(slice_to_value),
+            _ => $cl.call_typed_slice_aligned_with_timeout::<&str, i64, i64>($path, &b, $t)$($aw)*.and_then(slice_to_value),
+        }
+    }};
+    (@slice no, $cl:expr, $v:expr, $path:expr, $c:expr, $t:expr, [$($aw:tt)*]) => {{
+        let _ = ($path, $t);
+        Err(RepeError::Io(std::io::Error::other("no typed-slice calls on this client")))
+    }};
+}
+
+impl Session {
+    /// Start call `c` through entry point `v` (see `variant_name`). With `timeout` the `_with_timeout`
+    /// twin is used with that duration; the twins chosen by an odd `v` get a generous one.
+    fn call_v(&mut self, h: &H, c: usize, v: usize, timeout: Option<Duration>) {
+        let mut v = variant_for(self.kind, v);
+        if timeout.is_some() && v < 18 {
+            v |= 1;
+        }
+        if timeout.is_some() && v >= 18 {
+            v = 1;
+        }
+        let t = timeout.unwrap_or(CALL_TIMEOUT);
+        let tx = self.ev_tx.clone();
+        match self.cl.clone() {
+            Cl::B(cl) => {
+                std::thread::spawn(move || {
+                    CALLER_THREAD.with(|x| x.set(Some(c)));
+                    let r = call_variant!(cl, v, c, t, slices: yes, []);
+                    let _ = tx.send(Event::Res(c, r));
+                });
+            }
+            Cl::A(cl) => {
+                let jh = h.rt.spawn(CALLER_TASK.scope(c, async move {
+                    let r = call_variant!(cl, v, c, t, slices: yes, [.await]);
+                    let _ = tx.send(Event::Res(c, r));
+                }));
+                self.handles.push((c, jh));
+            }
+            Cl::W(cl) => {
+                let jh = h.rt.spawn(CALLER_TASK.scope(c, async move {
+                    let r = call_variant!(cl, v, c, t, slices: no, [.await]);
+                    let _ = tx.send(Event::Res(c, r));
+                }));
+                self.handles.push((c, jh));
+            }
+        }
+    }
+}
+
 // ---------------------------------------------------------------------------------------------
 // family `mux`
 // ---------------------------------------------------------------------------------------------
@@ -503,12 +633,16 @@ struct MuxCase {
     kind: usize,
     n: usize,
     script: Vec<String>,
+    /// entry point of each caller (empty = all `call_json`)
+    vars: Vec<usize>,
 }
 
 fn run_mux_case(h: &H, out: &mut Out, idx: &str, case: &MuxCase) {
     let kname = KINDS[case.kind];
     let script_s = if case.script.is_empty() { "-".to_string() } else { case.script.join(",") };
-    let op_of = |ids: &str| format!("case {} {} {} {} {}", idx, case.kind, case.n, ids, script_s);
+    let vars: Vec<usize> = (0..case.n).map(|c| variant_for(case.kind, case.vars.get(c).copied().unwrap_or(0))).collect();
+    let vars_s = if vars.is_empty() { "-".to_string() } else { vars.iter().map(|x| x.to_string()).collect::<Vec<_>>().join(",") };
+    let op_of = |ids: &str| format!("case {} {} {} {} {} {}", idx, case.kind, case.n, ids, script_s, vars_s);
     out.begin(&op_of("?"));
     let fail = |out: &mut Out, sig: &str, detail: String, ids: &str| {
         out.oracle_fail(&format!("mux.{}.{}", kname, sig), &detail, &[op_of(ids)]);
@@ -526,7 +660,8 @@ fn run_mux_case(h: &H, out: &mut Out, idx: &str, case: &MuxCase) {
         _ => None,
     };
     for c in 0..case.n {
-        s.call(h, c, req_body(c), None);
+        s.call_v(h, c, vars[c], None);
+        out.count(&format!("mux.entry.{}", variant_name(vars[c])));
     }
     let frames = match s.read(case.n) {
         Ok(f) => f,
@@ -571,8 +706,11 @@ fn run_mux_case(h: &H, out: &mut Out, idx: &str, case: &MuxCase) {
         } else if who.is_none() {
             // nobody waits for it: also vary the echoed query (long, non-ASCII, not UTF-8)
             wire.push(response_q(id, notify, pos as i64, -1, k));
-        } else {
+        } else if notify && case.kind == 2 {
+            // goes to the subscriber, which reads the tag from a JSON body
             wire.push(response(id, notify, pos as i64, who.map(|x| x as i64).unwrap_or(-1)));
+        } else {
+            wire.push(response_v(id, notify, pos as i64, who.map(|x| x as i64).unwrap_or(-1), vars[who.unwrap()]));
         }
         meta.push((who, notify));
         out.count(&format!("mux.frame.{}", &t[..1]));
@@ -1238,7 +1376,8 @@ fn gen_mux(args: &Args, r: &mut Rng) -> (Vec<MuxCase>, Vec<BatchCase>) {
                     };
                     script.insert(pos, t);
                 }
-                cases.push(MuxCase { kind, n, script });
+                let vars = (0..n).map(|_| r.below(NVARIANTS as u64) as usize).collect();
+                cases.push(MuxCase { kind, n, script, vars });
             }
         }
         // every single insertion position of each adversarial kind for N = 2 (all orders)
@@ -1247,7 +1386,8 @@ fn gen_mux(args: &Args, r: &mut Rng) -> (Vec<MuxCase>, Vec<BatchCase>) {
                 for pos in 0..=2 {
                     let mut script: Vec<String> = p.iter().map(|c| format!("r{c}")).collect();
                     script.insert(pos, t.to_string());
-                    cases.push(MuxCase { kind, n: 2, script });
+                    let vars = vec![r.below(NVARIANTS as u64) as usize, r.below(NVARIANTS as u64) as usize];
+                    cases.push(MuxCase { kind, n: 2, script, vars });
                 }
             }
         }
@@ -1257,9 +1397,10 @@ fn gen_mux(args: &Args, r: &mut Rng) -> (Vec<MuxCase>, Vec<BatchCase>) {
             if n % 2 == 0 {
                 script.push("u0".into()); // odd script length = coalesced write (TCP clients)
             }
-            cases.push(MuxCase { kind, n, script: script.clone() });
+            let vars: Vec<usize> = (0..n).map(|c| c % NVARIANTS).collect();
+            cases.push(MuxCase { kind, n, script: script.clone(), vars: vars.clone() });
             script.reverse();
-            cases.push(MuxCase { kind, n, script });
+            cases.push(MuxCase { kind, n, script, vars });
         }
         let nrand = if args.thorough() { 1000 } else { 30 };
         for _ in 0..nrand {
@@ -1269,7 +1410,8 @@ fn gen_mux(args: &Args, r: &mut Rng) -> (Vec<MuxCase>, Vec<BatchCase>) {
                 3 => r.range(17, 40),
                 _ => r.range(41, 64),
             } as usize;
-            cases.push(MuxCase { kind, n, script: random_script(r, n) });
+            let vars = (0..n).map(|_| r.below(NVARIANTS as u64) as usize).collect();
+            cases.push(MuxCase { kind, n, script: random_script(r, n), vars });
         }
     }
     let mut batches = Vec::new();
@@ -2653,7 +2795,8 @@ fn main() {
             match w.first().copied() {
                 Some("case") if w.len() >= 6 => {
                     let script = if w[5] == "-" { vec![] } else { w[5].split(',').map(|s| s.to_string()).collect() };
-                    run_mux_case(&h, &mut out, &idx, &MuxCase { kind: w[2].parse().unwrap(), n: w[3].parse().unwrap(), script });
+                    let vars = w.get(6).filter(|x| **x != "-").map(|x| x.split(',').filter_map(|y| y.parse().ok()).collect()).unwrap_or_default();
+                    run_mux_case(&h, &mut out, &idx, &MuxCase { kind: w[2].parse().unwrap(), n: w[3].parse().unwrap(), script, vars });
                 }
                 Some("seq") if w.len() >= 5 => run_seq_case(&h, &mut out, &idx, w[2].parse().unwrap(), w[3].parse().unwrap(), w[4].parse().unwrap(), 0),
                 Some("seqbig") if w.len() >= 6 => run_seq_case(&h, &mut out, &idx, w[2].parse().unwrap(), w[3].parse().unwrap(), w[4].parse().unwrap(), w[5].parse().unwrap()),
